@@ -4,6 +4,7 @@ package main
 // point leaves the destination path untouched.  (engine-only: crash injection)
 
 import (
+	"bytes"
 	"context"
 	"errors"
 	"os"
@@ -148,7 +149,14 @@ func VerifC08_CmdRunExtractCrash_E() {
 	if hadOld {
 		os.WriteFile(target, old, 0644)
 	}
-	k := vChoose("crash-before-mutation", 14)
+	if vChoose("with-seed", 2) == 1 {
+		// --seed <index>: the seed blob is an older file next to its index (same two chunks here)
+		os.WriteFile(dir+"/seed", blob, 0644)
+		idxBytes, _ := os.ReadFile(dir + "/blob.caibx")
+		os.WriteFile(dir+"/seed.caibx", idxBytes, 0644)
+		opt.seeds = []string{dir + "/seed.caibx"}
+	}
+	k := vChoose("crash-before-mutation", 18)
 	vCrashAt(k, -1, func() {
 		vCover("post-mortem")
 		b, err := os.ReadFile(target)
@@ -163,4 +171,45 @@ func VerifC08_CmdRunExtractCrash_E() {
 	vAssert(err == nil, "extract from a complete local store failed")
 	b, _ := os.ReadFile(target)
 	vAssert(string(b) == string(blob), "extract reported success but the destination is not the blob")
+}
+
+// VerifC07_CmdTarIndexCancel_E: `desync tar -i -s <store> <index> <dir>` (the whole runTar: the
+// archive streams through a pipe into the chunker) with a cancellation before the start or from
+// a goroutine at any scheduling point: success means the stored index describes the complete
+// archive; otherwise an error is returned and no index file is written.
+func VerifC07_CmdTarIndexCancel_E() {
+	dir := vTempDir()
+	os.Mkdir(dir+"/src", 0755)
+	os.WriteFile(dir+"/src/a", []byte("hello"), 0644)
+	os.Mkdir(dir+"/store", 0755)
+	// the complete archive, for its length
+	var full bytes.Buffer
+	vAssert(desync.Tar(context.Background(), &full, desync.NewLocalFS(dir+"/src", desync.LocalFSOptions{})) == nil, "reference tar")
+	var opt tarOptions
+	addStoreOptions(&opt.cmdStoreOptions, pflag.NewFlagSet("verif", pflag.ContinueOnError))
+	opt.n = 1
+	opt.store = dir + "/store"
+	opt.chunkSize = "16:64:256"
+	opt.createIndex = true
+	opt.inFormat = "disk"
+	vFSYield(false)        // only the pipeline's own synchronisation points are cancellation instants here
+	vSchedBlockFixed(true) // the tar/chunker/worker pipeline hands over deterministically; the cancelling goroutine preempts it anywhere
+	ctx, cancel := context.WithCancel(context.Background())
+	defer cancel()
+	switch vChoose("cancel", 3) {
+	case 1:
+		cancel()
+	case 2:
+		go cancel()
+	}
+	err := runTar(ctx, opt, []string{dir + "/out.caidx", dir + "/src"})
+	vCover("returned")
+	b, rerr := os.ReadFile(dir + "/out.caidx")
+	if err == nil {
+		vAssert(rerr == nil, "tar -i reported success but wrote no index")
+		idx, perr := desync.IndexFromReader(bytes.NewReader(b))
+		vAssert(perr == nil && idx.Length() == int64(full.Len()), "tar -i reported success but the index does not describe the complete archive (interrupted?)")
+	} else {
+		vAssert(os.IsNotExist(rerr), "tar -i failed but left an index file")
+	}
 }
